@@ -71,3 +71,13 @@ func (v *VerifModule) VerifLoadKeyFile(filename, product string, req *bfe_basic.
 // VerifVersion is the Version string the hook puts into the conf it passes to ruleTable.Update
 // (reload histories use several).
 var VerifVersion = "verif"
+
+// LoadFile runs the module's real reload entry point loadConfData (AuthJWTConfLoad + readKeyFile) on a rule file.
+func (v *VerifModule) LoadFile(path string) error {
+	return v.m.loadConfData(map[string][]string{"path": {path}})
+}
+
+// Run runs authJWTHandler on req with whatever table is installed.
+func (v *VerifModule) Run(req *bfe_basic.Request) (int, *bfe_http.Response) {
+	return v.m.authJWTHandler(req)
+}
